@@ -36,6 +36,12 @@ def directed():
         base({"1": {"kind": "func", "script": [Y(), Y(es=[["ext", 2, [4]]]), Y(), R()]},
               "2": {"kind": "nest", "tock": 0.0, "always": True, "kids": [3]}, "3": {"kind": "doer", "script": long},
               "4": {"kind": "func", "script": [Y(), Y(), Y(), R()]}}, [1, 2]),
+        # a doer removes itself and keeps running; a later remove of a sibling must not touch it (Doist and DoDoer)
+        base({"1": {"kind": "func", "script": [Y(), Y(es=[["rem", 0, [1]]]), Y(), Y(), Y(), Y(), R()]},
+              "2": {"kind": "doer", "script": [Y(), Y(), Y(), Y(es=[["rem", 0, [3]]]), Y(), R()]}, "3": {"kind": "func", "script": long}}, [1, 2, 3]),
+        base({"9": {"kind": "nest", "tock": 0.0, "always": True, "kids": [1, 2, 3]},
+              "1": {"kind": "func", "script": [Y(), Y(es=[["rem", 9, [1]]]), Y(), Y(), Y(), Y(), R()]},
+              "2": {"kind": "doer", "script": [Y(), Y(), Y(), Y(es=[["rem", 9, [3]]]), Y(), R()]}, "3": {"kind": "func", "script": long}}, [9]),
         # same step: remove then extend the same doer again (restart)
         base({"1": {"kind": "func", "script": [Y(), Y(es=[["rem", 0, [2]], ["ext", 0, [2]]]), Y(), Y(), R()]}, "2": {"kind": "doer", "script": long}}, [1, 2]),
     ]
@@ -107,6 +113,24 @@ def check_calls(case, obs):
             if after != exp_after:
                 errs.append(("members", f"remove({rec['ids']}) on {before} gave {after}, expected {exp_after}"))
             running = _running_chain(case, rec["caller"])
+            # only the named doers (and what lives under a named DoDoer) may be closed by this call
+            allowed = set(rd)
+            stack = list(rd)
+            while stack:
+                y = stack.pop()
+                dy = case["defs"].get(str(y))
+                if dy and dy["kind"] == "nest":
+                    for sid, lst, _ in obs["scheds"]:
+                        if sid == y:
+                            for k2 in lst:
+                                if k2 not in allowed:
+                                    allowed.add(k2); stack.append(k2)
+                    for k2 in dy["kids"]:
+                        if k2 not in allowed:
+                            allowed.add(k2); stack.append(k2)
+            strangers = [i for k, i, _ in window if k == "Cease" and i not in allowed]
+            if strangers:
+                errs.append(("stranger", f"remove({rec['ids']}) on {t} by {rec['caller']} force-closed {strangers}, which it did not name"))
             for x in rd:
                 # alive and suspended at call time?
                 opened = 0
